@@ -50,8 +50,9 @@ VARIABLES h,      \* the history this state belongs to
           t,      \* the abstract tree
           seen,   \* caches enabled: every state each observed object / listing has been in on this path
           snap,   \* Dev_ReaddirNotASnapshot: listings seen since each pending READDIR became ready
-          dv      \* deviations used on this path
-vars == <<h, done, t, seen, snap, dv>>
+          dv,     \* deviations used on this path
+          pass    \* 2: the search without deviations; 1: the search in which the listed deviations may be used
+vars == <<h, done, t, seen, snap, dv, pass>>
 
 Known(d) == d \in KnownDeviations
 EmptyFn == [x \in {} |-> 0]
@@ -214,7 +215,7 @@ ObsD(tr, p) == [dir |-> IsDir(tr, p), names |-> IF IsDir(tr, p) THEN NamesInD(tr
                 kinds |-> [n \in (IF IsDir(tr, p) THEN NamesInD(tr, p) ELSE {}) |-> Kind(tr, Append(p, n))]]
 SnapUpd(i, sn, d2, t2) ==
   IF ~Known(DevRd) /\ ~Known(DevRdAttr) THEN EmptyFn
-  ELSE [j \in {k \in RdOps(i) : Ready(i, d2, k)} |->
+  ELSE [j \in {k \in RdOps(i) : Ready(i, d2, k) /\ (Known(DevRd) \/ Ops(i)[k].proc = "READDIRPLUS")} |->
           (IF j \in DOMAIN sn THEN sn[j] ELSE {}) \cup {ObsD(t2, Ops(i)[j].h)}]
 ReaddirAttrDevOk(i, s, sn, tr, j) ==
   LET o == Ops(i)[j]
@@ -282,7 +283,12 @@ NamesIn(tr, p) == {Last(q) : q \in Children(tr, p)}
 \* invalidation shows without such an overlap and is not explained.
 DevPut == "Dev_CachePutAfterInvalidate"
 Named == {"LOOKUP", "CREATE", "MKDIR", "SYMLINK", "REMOVE", "RMDIR", "RENAME"}
+\* (a creating request whose own closing Lookup met the overtaking negative entry replies NOENT although
+\* it created the object: it counts as the mutation when the object is in the final tree and was not in
+\* the initial one)
 OkMuts(i) == {x \in Rng(Ops(i)) : x.ok /\ x.proc \in {"CREATE", "MKDIR", "SYMLINK", "REMOVE", "RMDIR", "RENAME"}}
+             \cup {x \in Rng(Ops(i)) : /\ ~x.ok /\ x.proc \in {"CREATE", "MKDIR", "SYMLINK"} /\ x.st = "NOENT"
+                                      /\ C(x) \in DOMAIN FinalT(i) /\ C(x) \notin DOMAIN InitT(i)}
 Touches(m, p) == IsPrefix(C(m), p) \/ (m.proc = "RENAME" /\ IsPrefix(Dst(m), p))
 Overlap(a, b) == a.id # b.id /\ ~(a.resp < b.inv) /\ ~(b.resp < a.inv)
 ReadsAttr(r, q) == \/ r.proc \in {"LOOKUP", "CREATE", "MKDIR", "SYMLINK"} /\ C(r) = q
@@ -335,29 +341,37 @@ FidPairs(i) == {<<IF o.proc = "LOOKUP" THEN C(o) ELSE o.h, o.rfid>> :
 FidBad(i) == IF \E a, b \in FidPairs(i) : (a[1] = b[1] /\ a[2] # b[2]) \/ (a[1] # b[1] /\ a[2] = b[2])
              THEN {"reply: a LOOKUP / GETATTR reply carries the fileid of another object (or two fileids for one path)"} ELSE {}
 
-Diag0(i) == [acc |-> FALSE, accdev |-> {}, n |-> 0, best |-> -1, bdone |-> {}, blocked |-> {}, full |-> FALSE,
+Diag0(i) == [acc |-> FALSE, accdev |-> {}, n |-> 0, n1 |-> 0, best |-> -1, bdone |-> {}, blocked |-> {}, full |-> FALSE,
              fbad |-> FinalBad(i), fdev |-> FinalDev(i), ebad |-> EventBad(i) \cup FidBad(i), searched |-> Searched(i), nops |-> NOps(i)]
 
+\* Two searches per history. Every history gets an initial state for the search without deviations
+\* (pass 2) and, when deviations of the search are listed, one for the search that may use them (pass
+\* 1, which carries the extra bookkeeping `snap` and is therefore larger). TLC generates the initial
+\* states in the order pass 1, pass 2 and the depth-first queue takes the last one first: pass 2 runs to
+\* its end before pass 1 of the same history is taken up, and Prune drops pass 1 when pass 2 accepted.
+\* (The order only matters for the cost: a history accepted in pass 2 is clean whichever ran first.)
+SearchDevs == {DevRd, DevRdAttr, DevSa}
 Init == /\ h \in 1..NH
+        /\ pass \in (IF KnownDeviations \cap SearchDevs = {} THEN {2} ELSE {1, 2})
         /\ done = {}
         /\ t = InitT(h)
         /\ seen = Seen0(h)
         /\ dv = {}
         /\ TLCSet(Reg(h), Diag0(h))
         /\ TLCSet(Pre(h), [ft |-> FinalT(h), bf |-> [j \in 1..NOps(h) |-> Before(h, j)]])
-        /\ snap = SnapUpd(h, EmptyFn, {}, InitT(h))
+        /\ snap = IF pass = 1 THEN SnapUpd(h, EmptyFn, {}, InitT(h)) ELSE EmptyFn
 
 Step == /\ Searched(h)
         /\ \E j \in 1..NOps(h) :
              /\ Ready(h, done, j)
              /\ done' = done \cup {j}
              /\ \/ \E t2 \in Succ(h, seen, t, Ops(h)[j]) : t' = t2 /\ dv' = dv
-                \/ ReaddirDevOk(h, seen, snap, t, j) /\ t' = t /\ dv' = dv \cup {DevRd}
-                \/ ReaddirAttrDevOk(h, seen, snap, t, j) /\ t' = t /\ dv' = dv \cup {DevRdAttr}
-                \/ SetattrStaleDevOk(h, done, t, j) /\ t' = t /\ dv' = dv \cup {DevSa}
+                \/ pass = 1 /\ ReaddirDevOk(h, seen, snap, t, j) /\ t' = t /\ dv' = dv \cup {DevRd}
+                \/ pass = 1 /\ ReaddirAttrDevOk(h, seen, snap, t, j) /\ t' = t /\ dv' = dv \cup {DevRdAttr}
+                \/ pass = 1 /\ SetattrStaleDevOk(h, done, t, j) /\ t' = t /\ dv' = dv \cup {DevSa}
              /\ seen' = IF Stale(h) /\ t' # t THEN SeenAdd(seen, t') ELSE seen
-             /\ snap' = SnapUpd(h, snap, done', t')
-        /\ UNCHANGED h
+             /\ snap' = IF pass = 1 THEN SnapUpd(h, snap, done', t') ELSE EmptyFn
+        /\ UNCHANGED <<h, pass>>
 
 Next == Step
 Spec == Init /\ [][Next]_vars
@@ -371,7 +385,8 @@ Observe ==
       deeper == k > d.best
       d2 == [d EXCEPT !.acc = @ \/ (Accepting /\ dv = {}),
                       !.accdev = IF Accepting /\ dv # {} THEN @ \cup {dv} ELSE @,
-                      !.n = @ + 1,
+                      !.n = IF pass = 2 THEN @ + 1 ELSE @,
+                      !.n1 = IF pass = 1 THEN @ + 1 ELSE @,
                       !.best = IF deeper THEN k ELSE @,
                       !.bdone = IF deeper THEN done ELSE @,
                       !.blocked = IF deeper /\ Searched(h) THEN Blocked ELSE @,
@@ -379,7 +394,7 @@ Observe ==
   IN TLCSet(Reg(h), d2)
 
 \* stop expanding a history once it is accepted without any deviation, or its bound is exhausted
-Prune == ~TLCGet(Reg(h)).acc /\ TLCGet(Reg(h)).n < MaxStates
+Prune == LET d == TLCGet(Reg(h)) IN ~d.acc /\ (IF pass = 2 THEN d.n ELSE d.n1) < MaxStates
 
 Finish ==
   JsonSerialize(IOEnv.VF_RESULT,
